@@ -8,11 +8,44 @@ from sqimpl import hx, unhx
 D = decimal.Decimal
 
 
+_DIRT = [('parse', 'zq1 = zq2 +\nzq3 )'), ('parse', '[1, (2, {3: '), ('names', 'zf(za, [zb, zc])', 3), ('eval', 'zl = [1, 2]; zl.push(3); zl[9]'),
+         ('eval', 'zg = n => zg(n + 1); zg(0)', 50), ('eval', 'zx = [1,\n2 3]'), ('eval', '[1 / 0, '), ('parse', 'za = 1\n\nzb = 2 zc'),
+         ('names', 'za\n$\nzb', 9), ('eval', 'zm = {"k": [1]}; push(zm["k"], 2); zm["q"]'), ('names', 'zh(zi(zj(zk', 2), ('eval', 'map([1, 2, 3], zv => zv / (zv - 2))')]
+_kept = []
+
+
+def _dirty(im, k):
+    """a payload marked `dirty` runs on a parser that has just been through a few earlier calls of the nasty kinds (rejected on a
+    later line, rejected with brackets open, generators abandoned midway, evaluations that raise midway or hit the budget
+    inside nested calls) - none of which may matter for any later call (property C11), so every monitor's own property is
+    also examined on a used parser"""
+    for j in range(3):
+        d = _DIRT[(k * 5 + j * 7) % len(_DIRT)]
+        try:
+            if d[0] == 'parse':
+                im.p.parse(d[1])
+            elif d[0] == 'names':
+                it = iter(im.p.list_names(d[1]))
+                _kept.append(it)
+                del _kept[:-50]
+                for _ in range(d[2]):
+                    next(it)
+            else:
+                im.p.eval(d[1], {}, max_ops_evaluated=d[2] if len(d) > 2 else 200)
+        except RecursionError:
+            pass
+        except Exception:
+            pass
+
+
 def answer(im, rest):
     name, _, payload = rest.partition(' ')
     fn = globals()['mon_' + name]
     try:
-        r = fn(im, json.loads(payload))
+        pl = json.loads(payload)
+        if isinstance(pl, dict) and 'dirty' in pl:
+            _dirty(im, pl['dirty'])
+        r = fn(im, pl)
     except RecursionError:
         r = {'fail': [], 'nontrivial': False, 'skipped': 'RecursionError'}
     return json.dumps(r, default=str)
